@@ -474,7 +474,7 @@ def admissibility(rec, mjm, m, d, w, rows=None, contact_force=True, sig_prefix="
     D = np.asarray(rows["D"], dtype=np.float64)
     live = np.any(J != 0, axis=1)
     extra = np.abs(Md) @ sa + np.abs(J).T @ (D * (np.abs(J) @ sa) * live)
-  bound = 64 * EPS32 * (mag + np.abs(Ma) + np.abs(qs) + extra) + 1e-6 * max(1.0, float(np.abs(jtf).max()))
+  bound = 128 * EPS32 * (mag + np.abs(Ma) + np.abs(qs) + extra) + 1e-6 * max(1.0, float(np.abs(jtf).max()))
   if not np.all(np.isfinite(qc)):
     rec.viol(sig_prefix + "qfrc_constraint:nonfinite", f"qfrc_constraint not finite {ctx}")
   else:
